@@ -2,6 +2,7 @@
 #define PHOTOSPLINE_FITSIO_H
 
 #include <string.h>
+#include <cmath>
 
 namespace photospline{
 	
@@ -328,13 +329,24 @@ bool splinetable<Alloc>::read_fits_core(fitsfile* fits, const std::string& fileP
 		std::ostringstream hduname;
 		hduname << "KNOTS" << i;
 		fits_movnam_hdu(fits, IMAGE_HDU, const_cast<char*>(hduname.str().c_str()), 0, &error);
-		long nknots_temp;
+		int knots_dim = 0;
+		fits_get_img_dim(fits, &knots_dim, &error);
+		long nknots_temp = 0;
 		fits_get_img_size(fits, 1, &nknots_temp, &error);
 		
 		if (error != 0)
 			throw std::runtime_error("Error reading size of knot vector "+std::to_string(i));
+		if(knots_dim!=1)
+			throw std::runtime_error("Knot vector "+std::to_string(i)+" is not a one-dimensional array");
 		if(nknots_temp<=0)
 			throw std::runtime_error("Invalid number of knots ("+std::to_string(nknots_temp)+") in dimension "+std::to_string(i));
+		//The sizes found in the file must describe a usable spline: one coefficient
+		//per basis function, and at least order+1 basis functions
+		if((uint64_t)nknots_temp!=naxes[i]+order[i]+1)
+			throw std::runtime_error("Number of knots ("+std::to_string(nknots_temp)+") in dimension "+std::to_string(i)
+			                         +" is inconsistent with the spline order and the size of the coefficient array");
+		if(naxes[i]<(uint64_t)order[i]+1)
+			throw std::runtime_error("Too few coefficients in dimension "+std::to_string(i)+" for the spline order");
 		nknots[i]=nknots_temp;
 		
 		//Allow spline evaluations to run off the ends of the
@@ -346,6 +358,10 @@ bool splinetable<Alloc>::read_fits_core(fitsfile* fits, const std::string& fileP
 		fits_read_pix(fits, TDOUBLE, &fpix, nknots[i], NULL, &knots[i][0], NULL, &error);
 		if (error != 0)
 			throw std::runtime_error("Error reading knot vector "+std::to_string(i)+" data");
+		for (uint64_t j = 0; j < nknots[i]; j++) {
+			if (!std::isfinite(knots[i][j]) || (j > 0 && knots[i][j] < knots[i][j-1]))
+				throw std::runtime_error("Knot vector "+std::to_string(i)+" is not finite and non-decreasing");
+		}
 	}
 	
 	//Read the axes extents, stored in a single extension HDU.
